@@ -148,6 +148,10 @@ def run_property(pid, tier, seed, jobs):
                 if len(samples) < 6 and o.get("how") != "constant":
                     samples.append({"case": cname, "bounds": c.bounds, "path_decisions": len(p.get("trail", [])),
                                     "obligation": o["name"], "verdict": o["verdict"], "solver": o.get("how"), "seconds": o.get("seconds")})
+            for k, nr in enumerate(p.get("nonrepro", [])):
+                os.makedirs(os.path.join(VERIF, "replays"), exist_ok=True)
+                json.dump({"property": pid, "tier": tier, "module": modname, "case": cname, **nr},
+                          open(os.path.join(VERIF, "replays", f"nonrepro_{pid}_{cname}_{k}.json"), "w"), indent=1, default=str)
             for vrec in p["violations"]:
                 site = vrec.get("site")
                 vrec = dict(vrec, case=cname, prefix=p["prefix"])
